@@ -42,8 +42,8 @@ seq_len = Function('seq_len', V, I)
 mkint = Function('mkint', I, V)
 mkbool = Function('mkbool', B, V)
 mkseq = Function('mkseq', ARR, I, Cls, V)        # injection of a sequence (contents, length, TUPLE|LIST)
-is_int = Function('is_int', V, B)
-is_bool = Function('is_bool', V, B)
+is_int = Function('py_is_int', V, B)
+is_bool = Function('py_is_bool', V, B)
 is_str = lambda v: cls(v) == TEXT
 is_none = lambda v: cls(v) == NONE
 
@@ -167,6 +167,7 @@ def prove(hyps, goal, timeout_ms=None, use_cvc5=True, both=False):
         res = Result('unsat', 'z3-%s' % z3.get_version_string(), time.time() - t0)
         if both and use_cvc5:
             c = run_cvc5(_smt2(hyps, goal))
+            res.detail = 'cvc5:' + c
             if c == 'sat':
                 res.status, res.detail = 'disagree', 'z3 unsat / cvc5 sat'
         return res
